@@ -14,6 +14,8 @@
 (*        byte string (= not the same sequence of machine steps)           *)
 (*   state : final stack top / length / memory / claims of the fresh       *)
 (*        interpreter differ from the machine run on the input             *)
+(*   orig-state : ... or from the state of the interpreter that produced   *)
+(*        the bytes (serialise -> deserialise round trip)                  *)
 (* PyPublishKeepsTop applies: published terms stay on the tracker stack.   *)
 (***************************************************************************)
 EXTENDS Generator, Json, IOUtils, TLCExt
@@ -70,6 +72,8 @@ CheckCase(i) ==
      ELSE IF Len(c.final.memory) # Len(r.st.memory) THEN "state"
      ELSE IF \E k \in 1..Len(r.st.memory) : ~SameE(c.final.memory[k], r.st.memory[k]) THEN "state"
      ELSE IF c.phase = "proof" /\ ExpSeq(c.final.claims) # Reverse(r.st.claims) THEN "state"
+     \* the interpreter that PRODUCED the bytes ended with this top of stack (symbols renamed to wire ids)
+     ELSE IF c.orig.has /\ (c.orig.len # c.final.len \/ c.orig.top.k # c.final.top.k \/ Expand(c.orig.top.p) # Expand(c.final.top.p)) THEN "orig-state"
      ELSE ""
 INSTANCE TraceBlocks WITH NCases <- Len(Cases), Check <- CheckCase
 =============================================================================
